@@ -239,6 +239,12 @@ class Sys:
                 want = model.get(i)
                 nobs += 1
                 if R.same(got, want):
+                    if self.k == 1 and not model.is_written(i) and np.ndim(got) != 0:
+                        # one value per element: an entry that was never written reads as the (scalar) default in both storages
+                        self.viol("answers", "get", "%s_unset_entry_of_arity_1_is_not_a_scalar" % name,
+                                  "%s storage: a never-written entry of a one-value-per-element attribute reads as a sequence, not as the scalar default" % name,
+                                  index=i, got=R.show(got), storage=name)
+                        raise Diverged()
                     continue
                 g = R.flat(got)
                 status = "written" if model.is_written(i) else "unset"
